@@ -288,14 +288,19 @@ func (d *deadline) Close() {
 	}
 	if d.rcancel != nil {
 		d.rcancel()
-		<-d.rdone
 	}
 	if d.bcancel != nil {
 		d.bcancel()
-		<-d.bdone
 	}
 	close(d.release)
+	// closing the channel ends every RPC even if (in a mutated tree) it ignored its context
 	d.cc.Close()
+	if d.rdone != nil {
+		<-d.rdone
+	}
+	if d.bdone != nil {
+		<-d.bdone
+	}
 	d.srv.Stop()
 	d.lis.Close()
 	d.serveWG.Wait()
